@@ -5,7 +5,7 @@ V="$(cd "$(dirname "$0")" && pwd)"
 cd "$V/lean" && lake build 2>&1 | tail -5
 export GOFLAGS=-mod=mod GOPROXY=off GOSUMDB=off GOTOOLCHAIN=local
 mkdir -p "$V/build"
-(cd "$V/harness" && go build -o "$V/build/harness-facts" ./cmd/factgen)
+(cd "$V/harness" && go build -o "$V/build/harness-facts" ./cmd/factgen && go build -o "$V/build/harness-zoogen" ./cmd/zoogen)
 (cd "$V/lean" && lake build FactsCheck 2>&1 | tail -2)
 if [ -z "$VERIF_REPO" ] || [ "$VERIF_REPO" = /repo ]; then
   cd "$V/harness" && go build -tags verif -o "$V/build/harness" ./cmd/harness
